@@ -193,17 +193,20 @@ def transcript(stream: bytes, mode: str, cuts: List[int]):
     out = run_stdio_script(steps)
     read = [norm_any(m) for m in out["read"]]
     notes = [norm_any(m) for m in out["notes"]]
-    return read, notes, out["reader_alive"], out["stdin"]
+    return read, notes, out["reader_alive"], out["stdin"], [norm_any(m) for m in out.get("late", [])]
 
 
 def check_one(ctx, sid: int, spec, stream: bytes, mode: str, cuts: List[int], baseline) -> None:
     case = {"spec": [list(s) for s in spec], "mode": mode, "cuts": cuts}
     try:
-        read, notes, alive, stdin = transcript(stream, mode, cuts)
+        read, notes, alive, stdin, late = transcript(stream, mode, cuts)
     except Exception as e:  # noqa
         ctx.violation("reader_crashed_harness", f"session failed: {e!r}", case)
         ctx.record(case, shape="crash")
         return
+    if late:
+        ctx.violation("message_withheld_until_next_read", f"{len(late)} message(s) whose line terminator had been read were "
+                      f"only delivered after further data arrived (cuts {cuts[:8]}, mode {mode})", case)
     ctx.count("sessions")
     ctx.count("messages_delivered", len(read))
     exp_read, exp_notes = reference_framing(stream)
@@ -259,7 +262,7 @@ def run(ctx):
             if not cuts:
                 # the single-chunk run is needed by every shard as the metamorphic baseline
                 try:
-                    r, n, alive, _ = transcript(stream, mode, [])
+                    r, n, alive, _, _l = transcript(stream, mode, [])
                     if mode == "bytes":
                         baseline = (r, n) if alive else None
                 except Exception:
@@ -376,7 +379,7 @@ def replay(ctx, case):
     stream = build_stream(spec)
     base = None
     try:
-        r, n, alive, _ = transcript(stream, "bytes", [])
+        r, n, alive, _, _l = transcript(stream, "bytes", [])
         base = (r, n) if alive else None
     except Exception:
         pass
